@@ -282,6 +282,10 @@ interpret:
 		return
 	}
 	pkg := funcPkgPath(fn)
+	if pkg == "sync" && fn.Signature.Recv() != nil && fn.Synthetic == "" && !strings.Contains(name, "sync.Map)") && !strings.Contains(name, "sync.Pool)") && !strings.Contains(name, "$") {
+		// the synchronisation primitives are modelled, never interpreted from their runtime-dependent source
+		panic(w.unsupported("unsupported-call %s (synchronisation primitive without a model)", name))
+	}
 	if w.eng.silenced(pkg) {
 		w.stubsSeen["silenced:"+pkg] = true
 		cont(silencedResults(fn.Signature))
